@@ -282,6 +282,8 @@ pub struct Aggregate {
 /// Case timeout (wall clock): a safety net for loops that neither terminate
 /// nor poll. Verdict-producing budgets are all in simulated steps.
 const CASE_TIMEOUT: Duration = Duration::from_secs(180);
+/// Stop handing out cases after this many violations outside the known list.
+const ENOUGH_VIOLATIONS: usize = 60;
 
 pub fn run_pool(check: &'static dyn Check, tier: Tier, base: u64, n_workers: usize, only: Option<Vec<u64>>) -> Aggregate {
     let id = check.info().id;
@@ -403,7 +405,16 @@ pub fn run_pool(check: &'static dyn Check, tier: Tier, base: u64, n_workers: usi
         fingerprints: BTreeMap::new(),
     };
     let mut sample_slots: BTreeMap<u64, Value> = BTreeMap::new();
+    // Once plenty of violations that are not known findings have been seen,
+    // no further cases are handed out: under a badly broken tree (e.g. a
+    // unifier that no longer terminates) every remaining case could cost its
+    // whole step budget, and the verdict is already clear.
+    let known = KnownFindings::load();
+    let mut unknown_violations = 0usize;
     for ev in rx {
+        if unknown_violations >= ENOUGH_VIOLATIONS {
+            next.store(u64::MAX / 2, Ordering::SeqCst);
+        }
         match ev {
             WorkerEvent::Done(idx, _seed, r) => {
                 agg.cases += 1;
@@ -429,6 +440,7 @@ pub fn run_pool(check: &'static dyn Check, tier: Tier, base: u64, n_workers: usi
                 for (k, v) in &r.probes {
                     *agg.probes.entry(k.clone()).or_insert(0) += v;
                 }
+                unknown_violations += r.violations.iter().filter(|v| known.matches(v).is_none()).count();
                 agg.violations.extend(r.violations.iter().cloned());
                 agg.harness_errors.extend(r.harness_errors.iter().cloned());
                 if let Some(s) = r.sample {
@@ -443,6 +455,7 @@ pub fn run_pool(check: &'static dyn Check, tier: Tier, base: u64, n_workers: usi
             }
             WorkerEvent::Crashed(idx, seed, how) => {
                 agg.cases += 1;
+                unknown_violations += 1;
                 let prop = if how.contains("wall time") && (id == "C03" || id == "C14") { id } else { "C01" };
                 agg.violations.push(Violation {
                     property:  if id == "C01" || id == "C03" || id == "C14" { prop.to_string() } else { id.to_string() },
